@@ -122,13 +122,19 @@ func init() {
 		return s
 	}
 	fixedSubjects := []string{"abab", "aAb/\n", "bbaa", "ba\nab", "AAAA/"}
-	run := func(maxSubject int, flagSet []string, templates bool) func(c *explore.Chooser, x *explore.Ctx, n int) {
+	run := func(maxSubject int, flagSet []string, templates bool, anchored ...bool) func(c *explore.Chooser, x *explore.Ctx, n int) {
 		return func(c *explore.Chooser, x *explore.Ctx, n int) {
 			var pat string
-			if templates {
+			if len(anchored) > 0 {
+				// the pattern wrapped in every combination of ^ and $ (whole-subject and one-sided anchoring)
+				pre := []string{"^", ""}[c.Choose(2)]
+				post := []string{"$", ""}[c.Choose(2)]
+				pat = pre + c17Pattern(c, n) + post
+			} else if templates {
 				// the last two have 12 and 10 groups: two-digit references to groups that exist but are absent or empty
+				// ... and three in which the same text can match with different groups taking part (position-dependent)
 				pat = []string{"a", "(a)", "(a)(b)?", "(a(b))", "(a)|(b)", "()", "(a)(b)(A)", ".(.)?",
-					"(a)(b)?()()()()()()()(A)?()(b)?", "(a)()()()()()()()()()"}[c.Choose(10)]
+					"(a)(b)?()()()()()()()(A)?()(b)?", "(a)()()()()()()()()()", "(^a)|a", "(a$)|(a)", "a(?:(b)$|b)"}[c.Choose(13)]
 			} else {
 				pat = c17Pattern(c, n)
 			}
@@ -141,7 +147,11 @@ func init() {
 			if k > 0 {
 				s = fixedSubjects[k-1]
 			} else {
-				s = c16String(c, maxSubject, c17SubjectUnits)
+				ms := maxSubject
+				if templates && n >= 4 {
+					ms = 2 // the longest templates on the shorter subjects
+				}
+				s = c16String(c, ms, c17SubjectUnits)
 			}
 			fn := 6
 			if !templates {
@@ -279,6 +289,7 @@ func init() {
 			{Name: "patterns-x-longer-subjects", Thorough: sizes(1, 2), Run: run(4, c17Flags, false)},
 			{Name: "patterns3-x-subjects", Thorough: []int{3}, Run: run(3, []string{"", "im"}, false)},
 			{Name: "templates", Quick: sizes(0, 3), Thorough: sizes(0, 4), Run: run(3, []string{""}, true)},
+			{Name: "anchored-patterns", Quick: sizes(1, 1), Thorough: sizes(1, 2), Run: run(3, c17Flags, false, true)},
 			{Name: "invalid-patterns", Quick: []int{1}, ShardDepth: 1, Run: func(c *explore.Chooser, x *explore.Ctx, _ int) {
 				bad := []string{"//", "/(/", "/a**/", "/[/", "/)/", "/a{2,1}/", "/(?P<n/", `/\/`, "/a", "/+/", "/[b-a]/", `/\8/`}
 				lit := bad[c.Choose(len(bad))]
